@@ -160,22 +160,30 @@ def _run(ix, R):
     site = OD + 'exotransmit.py::ExoTransmitOpacity._load_exo_transmit'
     with R.guard('1.exo', 'PERM', site, 'exotransmit'):
         f = ix.func(site)
-        from sa.helpers import need
-        need(R, '1.exo', 'PERM', site,
-             'Exo-Transmit: wavenumber = 1e-2/lambda(m); one argsort orders the grid and the last axis of the '
-             '(pressure, temperature, wavenumber) table; rows stored at [pressure, :, wavelength]; m2 -> cm2 (x 1e4)', f,
-             ['V_wn.append(10000 * 1e-06 / V_arr[0])', 'V_wn = np.array(V_wn)', 'V_sort = V_wn.argsort()',
-              'self._wavenumber_grid = V_wn[V_sort]',
-              'self._xsec_grid = np.empty(shape=(self.pressureGrid.shape[0], self.temperatureGrid.shape[0], self.wavenumberGrid.shape[0]))',
-              '''
+        from sa.helpers import need, new_helpers_of
+        from sa.pattern import find
+        stmt_exo = ('Exo-Transmit: wavenumber = 1e-2/lambda(m); one argsort orders the grid and the last axis of the '
+                    '(pressure, temperature, wavenumber) table; rows stored at [pressure, :, wavelength]; m2 -> cm2 (x 1e4)')
+        rows_pat = '''
 if V_arr2.shape[0] == 1:
     V_lc += 1
     V_pc = 0
 else:
     self._xsec_grid[V_pc, :, V_lc] = V_arr2[1:] + 1e-60
     V_pc += 1
-''', 'self._xsec_grid = self._xsec_grid[:, :, V_sort] * 10000'],
-             under=['V_arr.shape[0] == 1'])
+'''
+        alloc_pat = ('self._xsec_grid = np.empty(shape=(self.pressureGrid.shape[0], self.temperatureGrid.shape[0], '
+                     'self.wavenumberGrid.shape[0]))')
+        full = ['V_wn.append(10000 * 1e-06 / V_arr[0])', 'V_wn = np.array(V_wn)', 'V_sort = V_wn.argsort()',
+                'self._wavenumber_grid = V_wn[V_sort]', alloc_pat, rows_pat,
+                'self._xsec_grid = self._xsec_grid[:, :, V_sort] * 10000']
+        b_, _missing = find(f.node, full, None, nodes_out=[])
+        if b_ is not None or new_helpers_of(f):
+            need(R, '1.exo', 'PERM', site, stmt_exo, f, full, under=['V_arr.shape[0] == 1'])
+        else:
+            # the statements are written differently: decide the same facts on the values the flow computes.  The
+            # row-filling loop (two counters driven by the one-entry rows) is still matched as statements.
+            _exo_by_value(ix, R, site, f, stmt_exo, [alloc_pat, rows_pat])
     # table / grid keys for the dictionary formats
     for site, keys in ((OD + 'pickleopacity.py::PickleOpacity._load_pickle_file',
                         {'self._wavenumber_grid': "'wno'", 'self._temperature_grid': "'t'", 'self._xsec_grid': "'xsecarr'"}),
@@ -515,7 +523,9 @@ def hitran(ix, R):
                 set(so.kw) - {'key'} or so.args:
             raise AnalysisError('the sort key is not an item picker: %s' % unparse(so.node))
         R.check('6.hitran.key', 'PERM', site, 'the (T, sigma) list is sorted in place by temperature (element 0)',
-                fl.tab.equal(key, spec(fl, 'operator.itemgetter(0)')) and not unlicensed(fl, so) and not so.loops,
+                (fl.tab.equal(key, spec(fl, 'operator.itemgetter(0)')) or
+                 (f.module.imports.get('itemgetter') == ('operator', 'itemgetter') and
+                  fl.tab.equal(key, spec(fl, 'itemgetter(0)')))) and not unlicensed(fl, so) and not so.loops,
                 key=unparse(so.node), detail=unparse(so.node), loc=f.loc(so.node))
     site = H + '::HitranCiaGrid.fill_temperature'
     with R.guard('6.hitran.fill', 'PERM', site, 'fill'):
@@ -528,6 +538,10 @@ def hitran(ix, R):
         from sa.helpers import resolve_guards, has_guard
         outer_ = None
         val = fl.tab.atom('const', ('NOTHING',))
+        from sa.helpers import pos_args
+        import types as _types
+        adds = [_types.SimpleNamespace(args=pos_args(fl, a_)[0], kw=pos_args(fl, a_)[1], guards=a_.guards, loops=a_.loops,
+                                       node=a_.node) for a_ in adds]        # add_temperature(T=t, sigma=s) is (t, s)
         for a_ in adds:
             if len(a_.args) != 2 or a_.kw or not fl.tab.equal(a_.args[0], tt):
                 raise AnalysisError('add_temperature is not called with the missing temperature and one table: %s' % unparse(a_.node))
@@ -614,7 +628,8 @@ self.compute_final_grid()
         fl = mkflow(ix, site)
         adds = [e for e in calls(fl, 'add_temperature') if e.loops]
         wns = [e for e in fl.of('store') if e.loops and unparse(e.target_ast).endswith('.wn')]
-        if len(adds) != 1 or len(wns) != 1 or len(adds[0].args) != 2:
+        from sa.helpers import pos_args
+        if len(adds) != 1 or len(wns) != 1 or len(pos_args(fl, adds[0])[0]) != 2 or pos_args(fl, adds[0])[1]:
             R.error('6.hitran.load.block', 'DOM', site, 'each block is added to its range object',
                     '%d add_temperature calls, %d stores to .wn inside the reading loop' % (len(adds), len(wns)), loc=f.loc())
         else:
@@ -679,6 +694,76 @@ self.compute_final_grid()
         else:
             R.check('6.hitran.final', 'PERM', site, stmt, not why, key='; '.join(w[:90] for w in why), detail='; '.join(why),
                     loc=f.loc())
+
+
+def _exo_by_value(ix, R, site, f, stmt, loop_patterns):
+    """ExoTransmitOpacity._load_exo_transmit written in another shape: the grid that is stored is W[argsort(W)] (or
+    sort(W)), W is 1e-2 / (first entry of every one-entry row of lines[2:]), and the table that is stored last is
+    1e4 * table[:, :, argsort(W)] with the same W."""
+    from sa.helpers import need
+    from sa.algebra import call_atoms
+    fl = mkflow(ix, site)
+    wn = [e for e in fl.of('store') if fmt(fl, e.target) == 'self._wavenumber_grid']
+    xs = [e for e in fl.of('store') if fmt(fl, e.target) == 'self._xsec_grid' and not e.loops]
+    if len(wn) != 1 or wn[0].loops or wn[0].guards or not xs or xs[-1].guards:
+        raise AnalysisError('%d stores of the wavenumber grid, %d of the table outside loops: not a shape this rule reads' %
+                            (len(wn), len(xs)))
+    v = wn[0].value
+    if v.mentions(lambda a: a.head in ('phi', 'mutated', 'alloc')):
+        raise AnalysisError('the wavenumber grid is built by statements this rule cannot follow: %s' % fmt(fl, v)[:160])
+    why = []
+    perms = call_atoms(v, 'argsort')
+    W = None
+    if perms:
+        W = perms[0].args[0]
+        if not fl.tab.equal(v, spec(fl, 'W[argsort(W)]', {'W': W})):
+            raise AnalysisError('the stored grid is %s: not W[argsort(W)]' % fmt(fl, v)[:160])
+    else:
+        srt = call_atoms(v, 'sort') + call_atoms(v, 'sorted') + call_atoms(v, 'unique')
+        if srt:
+            raise AnalysisError('the grid is sorted by %s: the permutation of the table cannot be compared' % fmt(fl, v)[:120])
+        own = spec(fl, 'argsort(W)', {'W': v})
+        if any(e.name in ('sort', 'argsort', 'sorted', 'lexsort', 'unique') for e in fl.of('call')) and not any(
+                isinstance(e.value, RF) and fl.tab.equal(e.value, own) for e in fl.of('assign')):
+            raise AnalysisError('a sort is called, but not on the value that is stored as the grid')
+        W = v
+        why.append('the wavenumber grid is stored in file order (%s): never sorted' % fmt(fl, v)[:100])
+    # W is 1e-2/lambda over the one-entry rows, whichever way round the division and the selection are written
+    okW = False
+    cands = [e.value for e in fl.of('assign') if isinstance(e.value, RF)] + [a.args[0] for a in call_atoms(W, 'split') if a.args]
+    row = 'array([float(x_) for x_ in ln_.split()])'
+    forms = ('array([10000 * 1e-06 / %s[0] for ln_ in L[2:] if %s.shape[0] == 1])' % (row, row),
+             '10000 * 1e-06 / array([%s[0] for ln_ in L[2:] if %s.shape[0] == 1])' % (row, row))
+    seen = []
+    for L in cands:
+        if any(L is s_ for s_ in seen):
+            continue
+        seen.append(L)
+        for fm in forms:
+            try:
+                if fl.tab.equal(W, spec(fl, fm, {'L': L})):
+                    okW = True
+            except AnalysisError:
+                pass
+    if not okW:
+        raise AnalysisError('the grid before sorting is %s: not recognised as 1e-2/lambda of the one-entry rows' %
+                            fmt(fl, W)[:200])
+    last = xs[-1].value
+    if perms:
+        P = spec(fl, 'argsort(W)', {'W': W})
+        forms_x = {'ok': '10000 * self._xsec_grid[:, :, P]', 'no unit factor': 'self._xsec_grid[:, :, P]',
+                   'unsorted': '10000 * self._xsec_grid', 'other axis 1': '10000 * self._xsec_grid[:, P, :]',
+                   'other axis 0': '10000 * self._xsec_grid[P]', 'other axis 0b': '10000 * self._xsec_grid[P, :, :]'}
+        hit = [k for k, t in forms_x.items() if fl.tab.equal(last, spec(fl, t, {'P': P}))]
+        if not hit:
+            raise AnalysisError('the table stored last is %s: not a shape this rule reads' % fmt(fl, last)[:200])
+        if hit[0] != 'ok':
+            why.append('the table stored last is %s (%s): the grid is ordered by argsort and converted m2 -> cm2, the '
+                       'table is not' % (fmt(fl, last)[:100], hit[0]))
+    # the rows: same statements as ever (counters driven by the one-entry rows)
+    b = need(R, '1.exo.rows', 'PERM', site, 'rows of the Exo-Transmit table are stored at [pressure, :, wavelength] of a '
+             '(pressure, temperature, wavenumber) array', f, loop_patterns)
+    R.check('1.exo', 'PERM', site, stmt, not why, key='; '.join(w[:80] for w in why), detail='; '.join(why), loc=f.loc())
 
 
 def clear_after_set(ix, R):
